@@ -43,7 +43,7 @@ def canon(x) -> str:
 
 
 class Conn:
-    __slots__ = ("cid", "hid", "nkey", "sid", "name", "uarg", "uargs", "weak", "state", "why")
+    __slots__ = ("cid", "hid", "nkey", "sid", "name", "uarg", "uargs", "weak", "state", "why", "reent")
 
     def __init__(self, cid, sid, name, hid, weak, uargs, uarg):
         self.cid = cid
@@ -56,6 +56,7 @@ class Conn:
         self.uarg = uarg
         self.state = "live"  # live | gone
         self.why = None  # disc | weak-death | sender-death
+        self.reent = None
 
     def expected(self, emit_args):
         return [{"o": w} for w in self.weak] + self.uargs + list(emit_args) + ([self.uarg] if self.uarg is not None else [])
@@ -163,6 +164,9 @@ class Model:
             self.find(f"connect|registered-name|raise:{ev['exc']}", f"connect({sid},{name!r}) raised {ev['exc']}")
             return
         c = Conn(ev["cid"], sid, name, ev["hid"], ev["weak"], ev["uargs"], ev["uarg"])
+        c.reent = ev.get("reent")  # ops that ran inside connect() while it consumed an argument iterable
+        if c.reent:
+            self.stat("connections_made_with_reentrant_connect")
         self.conns[c.cid] = c
         self.by_hid.setdefault(c.hid, []).append(c)
         self.lst(sid, name).append(c)
@@ -258,7 +262,7 @@ class Model:
             if n == 0:
                 f.finds.append(
                     (
-                        f"emit|handler-skipped|{depth}|during:{self.mutsig(f)}",
+                        f"emit|handler-skipped|{depth}|during:{self.mutsig(f)}" + ("|connection-made-while-connect-was-re-entered" if c.reent else ""),
                         f"connection #{c.cid} (handler {c.hid}) stayed connected throughout emit({sid},{name!r}) but was not called; "
                         f"snapshot={[x.cid for x in f.snapshot]} called={f.call_order} removed={f.removed} added={sorted(f.added)}",
                     )
@@ -417,3 +421,99 @@ def check(header, events):
     m = Model(header)
     m.run(events)
     return m.findings, m.stats
+
+
+# ---------------------------------------------------------------------------------------------------
+# registration through metaclasses: which names must connect() accept / reject for each class?
+#
+# Documented rule (MetaSignals): a class registers the names in its own `signals` list plus the signals of
+# its superclasses.  Events (recorded by the driver, in order):
+#   class     {t, c, bases, own, base_attr, list, how}   own = contents of the body's list right BEFORE the class
+#                                                        is created (None: no `signals` in the body);
+#                                                        base_attr[b] = contents of b.signals at that moment;
+#                                                        list = label of the list OBJECT bound in the body
+#   plain     {t, c}                                     ordinary class, nothing registered
+#   register  {t, c, names}                              register_signal(c, names) called by hand
+#   probe     {t, c, name, accepted, exc, called}        connect() attempted on an instance of c
+# must-accept(c)  = own(c) + must-accept(bases)              (later classes never change it)
+# may-accept(c)   = must-accept(c) + base_attr + may-accept(bases)   (a base's list may legitimately have grown
+#                                                        before c was created; names only in here are not judged)
+
+
+def check_family(events):
+    must, may, how, lists, order = {}, {}, {}, {}, []
+    prov = {}  # class -> {name key: where the obligation to accept it comes from}
+    gap = {}  # class -> True when it, or an ancestor, has no `signals` of its own and several bases
+    findings, stats = [], {}
+
+    def stat(k, n=1):
+        stats[k] = stats.get(k, 0) + n
+
+    for ev in events:
+        t = ev["t"]
+        c = ev.get("c")
+        if t == "class":
+            own = [canon(x) for x in (ev["own"] or [])]
+            m = set(own)
+            l = set(own)
+            for b in ev["bases"]:
+                m |= must.get(b, set())
+                l |= may.get(b, set())
+                l |= {canon(x) for x in ev["base_attr"].get(b, [])}
+            must[c], may[c] = m, l | m
+            gap[c] = (ev["own"] is None and len(ev["bases"]) > 1) or any(gap.get(b) for b in ev["bases"])
+            pv = {}
+            for k in m:
+                if k in own:
+                    pv[k] = "own-list"
+                elif any(k in {canon(x) for x in ev["base_attr"].get(b, [])} for b in ev["bases"]):
+                    pv[k] = "list-of-a-direct-base"
+                elif any(gap.get(b) for b in ev["bases"]):
+                    pv[k] = "inherited-via-class-without-own-list-and-several-bases"
+                else:
+                    pv[k] = "inherited-but-in-no-base-list"
+            prov[c] = pv
+            how[c] = ev["how"] + ("+bases" if ev["bases"] else "")
+            lists[c] = ev.get("list")
+            order.append(c)
+            stat("family_classes")
+            stat("family_class:" + ev["how"])
+            if len(ev["bases"]) > 1:
+                stat("family_class_multiple_bases")
+        elif t == "plain":
+            must[c], may[c] = set(), set()
+            how[c] = "plain-unregistered"
+            lists[c] = None
+            order.append(c)
+        elif t == "register":
+            must[c] = {canon(x) for x in ev["names"]}
+            may[c] = set(must[c])
+            prov[c] = dict.fromkeys(must[c], "manual-register")
+            how[c] = "manual-register"
+            stat("family_manual_register")
+        elif t == "probe":
+            k = canon(ev["name"])
+            stat("registration_probes")
+            later_sharing = any(lists.get(o) is not None and lists.get(o) == lists.get(c) for o in order[order.index(c) + 1 :])
+            if k in must[c]:
+                stat("registration_probes_must_accept")
+                if not ev["accepted"]:
+                    findings.append((f"register|registered-name-rejected|name-from={prov.get(c, {}).get(k, '?')}|raise:{ev['exc']}", f"connect(instance of {c}, {ev['name']!r}) raised {ev['exc']}; {c} registers {sorted(must[c])}"))
+                elif ev["called"] is False:
+                    findings.append((f"register|accepted-handler-not-called|class-signals={how[c]}", f"handler connected to ({c}, {ev['name']!r}) not called exactly once by emit"))
+            elif k not in may[c]:
+                stat("registration_probes_must_reject")
+                if later_sharing:
+                    stat("registration_probes_must_reject_list_shared_with_later_class")
+                if ev["accepted"]:
+                    findings.append(
+                        (
+                            f"register|unregistered-name-accepted|class-signals={how[c]}|{'list-object-shared-with-later-class' if later_sharing else 'no-shared-list'}",
+                            f"connect(instance of {c}, {ev['name']!r}) was accepted; {c} registers only {sorted(must[c])}",
+                        )
+                    )
+                elif ev["exc"] == "NameError":
+                    stat("registration_rejections_NameError")
+            else:
+                stat("registration_probes_unjudged")
+    return findings, stats
